@@ -136,6 +136,9 @@ ROOTS = [
     {"c": "BitMasked", "m": [5], "vw": 1, "lsb": 1, "n": 3, "x": {"c": "Numpy", "dt": "i64", "d": [1, 2, 3]}},
     {"c": "Numpy", "dt": "i64", "d": [3, 1, 2]},
     {"c": "ListOffset", "w": "64", "o": [0], "x": {"c": "Numpy", "dt": "i64", "d": []}},
+    # numpy.ma / Arrow convention (1 = missing): bytemask() hands out the mask buffer itself
+    {"c": "ByteMasked", "m": [0, 0, 1, 0], "vw": 0, "x": {"c": "Numpy", "dt": "i64", "d": [1, 2, 3, 4, 5]}},
+    {"c": "ByteMasked", "m": [1, 0, 1], "vw": 1, "x": {"c": "ListOffset", "w": "64", "o": [0, 1, 1, 3], "x": {"c": "Numpy", "dt": "i64", "d": [1, 2, 3]}}},
 ]
 
 VIEW_OPS = [
@@ -155,6 +158,9 @@ WRAP_OPS = [
     lambda: {"op": "getitem", "slice": [{"k": "newaxis"}], "pydispatch": 0},
     lambda: {"op": "getitem", "slice": [{"k": "arr", "data": [0, 0]}], "pydispatch": 0},
     lambda: {"op": "project"},
+    lambda: {"op": "project", "mask_alt": 1},          # project(mask): the positions missing in EITHER mask go
+    lambda: {"op": "project", "mask_alt": 2},
+    lambda: {"op": "bytemask"},
 ]
 FRESH_OPS = [
     lambda: {"op": "num", "axis": 1},
